@@ -8,6 +8,7 @@ import (
 
 	"github.com/goatcms/goatcore/filesystem"
 	"github.com/goatcms/goatcore/filesystem/filespace/encryptfs/cipherfs"
+	"github.com/goatcms/goatcore/varutil/goaterr"
 )
 
 // Cipher provide encrypt/decrypt functions
@@ -68,6 +69,9 @@ func (Cipher) Decrypt(key []byte, data []byte) (decrypted []byte, err error) {
 		return nil, err
 	}
 	nonceSize := gcm.NonceSize()
+	if len(data) < nonceSize {
+		return nil, goaterr.Errorf("encrypted data is too short (%d bytes) to contain %d bytes of nonce", len(data), nonceSize)
+	}
 	nonce, data = data[:nonceSize], data[nonceSize:]
 	return gcm.Open(nil, nonce, data, nil)
 }
